@@ -17,12 +17,18 @@ LastValue merge by sample time).
    (ABI v2) Gauge / pull MetricReader API; the comparison is with the P-level expectation only.
 3. code -> spec: seeded random histories (10-20 attribute sets, 1-4 readers, up to 6 callbacks on
    up to 4 instruments) are logged call by call and validated by MetricsAsyncTrace.tla (P actions).
-Only 2 and 3 can raise an alarm.
+4. concurrent clause: collector threads race threads that add / remove callbacks and destroy instruments
+   on the real SDK under the deterministic scheduler (harness/c17_conc.cc, flavour shim; random, PCT and
+   delay-bounded DFS schedules); every execution's event log is validated by MetricsAsyncConcTrace.tla:
+   no callback is entered after its RemoveCallback (or its instrument's destruction) has returned, and a
+   callback stably registered during a whole collection is entered exactly once in it.
+Only 2, 3 and 4 can raise an alarm.
 """
 import concurrent.futures as cf
 import hashlib
 import json
 import os
+import subprocess
 
 from lib import build, hrun, tlc, trace
 from lib.common import Broken, log
@@ -428,6 +434,99 @@ def validate(ctx, lines):
 
 
 # --------------------------------------------------------------------------------------------------
+def _run_plain(exe, args, timeout=600):
+    p = subprocess.run([exe] + [str(a) for a in args], stdout=subprocess.PIPE, stderr=subprocess.PIPE, text=True,
+                       timeout=timeout)
+    return p.returncode, p.stdout.splitlines(), p.stderr
+
+
+def concurrent(ctx, exe):
+    """Collectors racing Add/RemoveCallback/instrument destruction under the deterministic scheduler."""
+    thorough = ctx.tier == "thorough"
+    n = 1500 if thorough else 250
+    s = ctx.seed
+    # explore <strategy> <n> <seed> <ncb> <nmut> <ncolth> <ncol> <nops> [bound]
+    shapes = [(3, 1, 1, 2, 3), (4, 2, 1, 2, 3), (3, 1, 2, 2, 2), (5, 2, 2, 2, 4)]
+    runs = []
+    for i, sh in enumerate(shapes):
+        runs.append(["explore", "random", n, s * 13 + i] + list(sh))
+        runs.append(["explore", "pct", n, s * 17 + i] + list(sh))
+    # delay-bounded DFS over the schedules of one small program (2 callbacks, 1 mutator, 1 collector)
+    runs.append(["explore", "dfs", 20000 if thorough else 1500, s, 2, 1, 1, 1, 1, 2])
+    runs.append(["explore", "dfs", 20000 if thorough else 1500, s + 1, 3, 1, 1, 1, 2, 2])
+    lines, bad = [], []
+    with cf.ThreadPoolExecutor(max_workers=6) as ex:
+        futs = [(a, ex.submit(_run_plain, exe, a)) for a in runs]
+        for a, f in futs:
+            rc, out, err = f.result()
+            if rc in (3, 4) or rc < 0 or rc in (134, 139):
+                last = max([i for i, ln in enumerate(out) if '"e":"Cfg"' in ln] or [0])
+                bad.append((a, rc, out[last:]))
+                out = out[:last]
+            elif rc != 0:
+                raise Broken("c17_conc failed rc=%s args=%s: %s" % (rc, a, err[-2000:]))
+            for ln in out:
+                if '"e":"DfsComplete"' in ln:
+                    ctx.extra.setdefault("concurrent_dfs_complete", []).append({"args": [str(x) for x in a],
+                                                                               "executions": json.loads(ln)["executions"]})
+                elif '"e":"Summary"' not in ln:
+                    lines.append(ln)
+    execs = trace.split_executions(lines)
+    # coverage of the interesting windows (measured on the logs; not an oracle): a Remove/Destroy issued while
+    # a collection is in progress, and one issued after that collection has already entered another callback
+    ovl = dang = 0
+    for e in execs:
+        open_, entered, o, d = set(), {}, False, False
+        for ln in e:
+            v = json.loads(ln)
+            if v["e"] == "ColCall":
+                open_.add(v["k"])
+                entered[v["k"]] = 0
+            elif v["e"] == "ColRet":
+                open_.discard(v["k"])
+            elif v["e"] == "CbInvoked":
+                entered[v["k"]] = entered.get(v["k"], 0) + 1
+            elif v["e"] in ("RemoveCall", "DestroyCall") and open_:
+                o = True
+                d = d or any(entered.get(k, 0) > 0 for k in open_)
+        ovl += o
+        dang += d
+    ctx.extra["concurrent_executions_remove_during_collection"] = ovl
+    ctx.extra["concurrent_executions_remove_while_collection_inside_callbacks"] = dang
+    if execs and dang == 0:
+        raise Broken("concurrent clause: no execution removed a callback while a collection was inside user callbacks (vacuous)")
+    res = trace.validate(ctx, "MetricsAsyncConcTrace", "MetricsAsyncConcTrace.cfg", lines, parallel=6, chunk=600, tag="conc")
+    ctx.extra["concurrent_executions_validated"] = res["executions"]
+    ctx.extra["concurrent_events_validated"] = res["events"]
+    ctx.evaluations += res["executions"]
+    nd = len(ctx.distinct)
+    for e in execs:
+        ctx.distinct.add(("conc", hashlib.sha1("\n".join(x for x in e[1:]).encode()).hexdigest()))
+    ctx.extra["concurrent_distinct_interleavings"] = len(ctx.distinct) - nd
+    for rj in res["rejected"]:
+        ev, at = rj["events"], rj["at"]
+        _viol(ctx, "concurrent clause: MetricsAsyncConcTrace rejects a real execution (collectors racing Add/RemoveCallback) at "
+              "event %d: %s" % (at, json.dumps(ev[at]) if at < len(ev) else "?"),
+              {"kind": "conc-trace", "events": ev, "at": at})
+    for a, rc, out in bad:
+        tail = []
+        for x in out[-80:]:
+            try:
+                tail.append(json.loads(x))
+            except Exception:
+                tail.append(x)
+        _viol(ctx, "concurrent clause: real execution %s, harness args=%s" % (
+            "got stuck (deadlock / livelock under the fair schedule)" if rc == 3 else "crashed (rc=%s)" % rc, a),
+            {"kind": "conc-run", "args": [str(x) for x in a], "events": tail})
+    if execs:
+        pick = next((e for e in execs if any("RemoveCall" in x for x in e[8:])), execs[0])
+        ctx.sample({"kind": "concurrent execution validated by MetricsAsyncConcTrace", "events": [json.loads(x) for x in pick[:24]]})
+    ctx.assumptions.append("concurrent clause: sequentially consistent executions only (scheduler shim); schedules sampled (random, PCT) "
+                           "plus delay-bounded DFS (2 preemptions) of two small programs; 1-2 collector threads, 1-2 mutator threads, "
+                           "each callback is added/removed by one thread only; values are not examined concurrently")
+
+
+# --------------------------------------------------------------------------------------------------
 def _build_v1():
     return build.harness("c17_async", ["c17_async.cc"], "asan")
 
@@ -444,6 +543,10 @@ def _build_v2():
         # gauges only and say so (never silently)
         log("ABI v2 flavour unavailable, synchronous gauge NOT covered:", str(b)[:300])
         return None
+
+
+def _build_conc():
+    return build.harness("c17_conc", ["c17_conc.cc"], "shim")
 
 
 def _build(ctx):
@@ -467,8 +570,8 @@ def run(ctx):
                          "one collection that delivers a point + distinct recorded histories with at least one callback invocation "
                          "or delivered point")
     # the two SDK builds (the ABI v2 flavour is rebuilt after every change of /repo) overlap with the TLC work
-    bex = cf.ThreadPoolExecutor(max_workers=2)
-    f1, f2 = bex.submit(_build_v1), bex.submit(_build_v2)
+    bex = cf.ThreadPoolExecutor(max_workers=3)
+    f1, f2, f3 = bex.submit(_build_v1), bex.submit(_build_v2), bex.submit(_build_conc)
     try:
         model_check(ctx)
         log("model checking done at %.0fs" % ctx.timer.s())
@@ -494,6 +597,8 @@ def run(ctx):
     lines = record(ctx, exes)
     log("recorded %d events at %.0fs" % (len(lines), ctx.timer.s()))
     validate(ctx, lines)
+    log("validated at %.0fs" % ctx.timer.s())
+    concurrent(ctx, f3.result())
     if ctx.extra.get("model_violations") and not ctx.violations:
         log("model-level violations without a real-execution witness:", ctx.extra["model_violations"])
 
@@ -559,11 +664,12 @@ def replay(ctx, path):
             ctx.violation("replayed behaviour fails again at step %d: %s" % (bad[1], bad[0]), rep)
         elif tv["rejected"]:
             ctx.violation("MetricsAsyncTrace rejects the re-run of the behaviour at event %d" % tv["rejected"][0]["at"], rep)
-    elif rep.get("kind") == "trace":
+    elif rep.get("kind") in ("trace", "conc-trace"):
+        mod = "MetricsAsyncTrace" if rep["kind"] == "trace" else "MetricsAsyncConcTrace"
         lines = [json.dumps(e, separators=(",", ":")) for e in rep["events"]]
-        res = trace.validate(ctx, "MetricsAsyncTrace", "MetricsAsyncTrace.cfg", lines, parallel=1, tag="replay")
+        res = trace.validate(ctx, mod, mod + ".cfg", lines, parallel=1, tag="replay")
         for rj in res["rejected"]:
-            ctx.violation("replayed log rejected by MetricsAsyncTrace at event %d" % rj["at"], rep)
+            ctx.violation("replayed log rejected by %s at event %d" % (mod, rj["at"]), rep)
         ctx.sample({"kind": "replayed violation log", "events": rep["events"][:10]})
     else:
         raise Broken("replay file has neither a behaviour nor an event log; re-run the check with the recorded seed")
